@@ -218,9 +218,19 @@ func c03Reject(t *fw.T) {
 		return
 	}
 	var mutant, kind string
-	switch c := r.Intn(3); c {
+	toks := gen.JSSpellTokens(prog, st)
+	c := r.Intn(3)
+	for _, tk := range toks {
+		if tk == "/" || tk == "/=" {
+			// a bracket more or less in front of a division sign can turn it into the start of a regular expression
+			// literal that swallows brackets (`f(){} / a[1] /` after a deleted '}'): ill-formedness is not certain
+			c = 1 + r.Intn(2)
+			t.Count("bracket.mutant.skipped.division", 1)
+			break
+		}
+	}
+	switch c {
 	case 0: // delete or insert one bracket at a token boundary
-		toks := gen.JSSpellTokens(prog, st)
 		// positions inside a template substitution are left alone: there a '}' is not a bracket but the end of the
 		// substitution, and what follows it is template text
 		var idx, gaps []int
